@@ -50,6 +50,8 @@ struct Sock {
     state: u8,
     inq: u64,
     notsent: u64,
+    /// segments sent and not yet acknowledged (tcpi_unacked)
+    unacked: u64,
     sent: Option<u64>,
     acked: u64,
     received: u64,
@@ -139,7 +141,10 @@ fn sock(fd: RawFd) -> Option<Sock> {
         state: info[0],
         inq: inq.max(0) as u64,
         notsent: u32_at(&info, 144),
-        sent: if len as usize >= 208 { Some(u64_at(&info, 200)) } else { None },
+        unacked: u32_at(&info, 24),
+        // bytes_sent counts retransmitted bytes again (a loaded machine does retransmit on loopback:
+        // the ACK comes later than the 200 ms minimum RTO): take bytes_retrans @208 off
+        sent: if len as usize >= 216 { Some(u64_at(&info, 200).saturating_sub(u64_at(&info, 208))) } else { None },
         acked: u64_at(&info, 120),
         received: u64_at(&info, 128),
     })
@@ -188,7 +193,9 @@ pub fn snapshot() -> Snap {
             match s.sent {
                 Some(sent) => {
                     // a FIN takes one sequence number and is counted by the receiver
-                    if sent != p.received && sent + 1 != p.received {
+                    // (or everything sent has been acknowledged: certainly received - the slower test,
+                    // delayed ACKs, but immune to any quirk of the byte counters)
+                    if sent != p.received && sent + 1 != p.received && s.unacked != 0 {
                         quiet = false;
                     }
                 }
@@ -261,10 +268,17 @@ pub async fn settle_with(mut busy: impl FnMut() -> bool) -> bool {
             continue;
         }
         prev = None;
+        if std::env::var("TCPQ_DEBUG").is_ok() && start.elapsed() > Duration::from_millis(300) {
+            for s in all_socks() {
+                eprintln!("tcpq: slow settle {:?}; {s:?}", start.elapsed());
+            }
+        }
         if start.elapsed() > Duration::from_secs(20) {
             TIMEOUTS.fetch_add(1, Ordering::Relaxed);
             if std::env::var("TCPQ_DEBUG").is_ok() {
-                eprintln!("tcpq: settle deadline; sockets: {:#?}", all_socks());
+                for s in all_socks() {
+                    eprintln!("tcpq: settle deadline; {s:?}");
+                }
             }
             return true;
         }
